@@ -96,7 +96,7 @@ template<class T>
 std::vector<int> caps_for(int capacity)
 {
     std::vector<int> c;
-    if (thorough() || capacity <= 12) {
+    if (capacity <= 12 || (thorough() && capacity <= 24)) {
         for (int k = 0; k <= capacity + 2; ++k) {
             c.push_back(k);
         }
@@ -125,9 +125,17 @@ std::vector<T> text_values(std::uint64_t salt)
             return v;
         } else if constexpr (sizeof(I) == 2) {
             if (thorough()) {
+                // every 16th 16-bit value (offset by the salt) and the 64 values next to each end
                 std::vector<T> v;
-                for (long x = std::numeric_limits<I>::min(); x <= std::numeric_limits<I>::max(); ++x) {
-                    v.push_back(make<T>(x < 0, static_cast<u128>(x < 0 ? -x : x)));
+                long const lo = std::numeric_limits<I>::min(), hi = std::numeric_limits<I>::max();
+                long const lo_t = static_cast<long>(cnl::unwrap(std::numeric_limits<T>::lowest())), hi_t = static_cast<long>(cnl::unwrap(std::numeric_limits<T>::max()));
+                for (long x = lo; x <= hi; ++x) {
+                    if (x < lo_t || x > hi_t) {
+                        continue;
+                    }
+                    if ((x - lo) % 16 == static_cast<long>(salt % 16) || x - lo_t < 64 || hi_t - x < 64 || (x > -40 && x < 40)) {
+                        v.push_back(make<T>(x < 0, static_cast<u128>(x < 0 ? -x : x)));
+                    }
                 }
                 return v;
             }
